@@ -388,7 +388,7 @@ def state_from_seed(n, sseed):
 PLAIN_NAMES = ["a", "b", "theta", "phi_1", "w12", "alpha_10", "x", "y"]
 SHADOW_NAMES = ["S", "I", "E", "N", "O", "Q", "pi", "beta", "gamma", "zeta", "lamda",
                 "re", "im", "Symbol", "oo", "nan"]
-INDEX_BASES = ["p", "v", "th"]
+INDEX_BASES = ["p", "v", "th", "h", "up", "eth"]  # some base names are suffixes of others; none is a plain symbol name (open finding K3)
 EXPR_FUNCS = ["sin", "cos", "exp"]
 
 
@@ -399,6 +399,9 @@ def symbol_atoms(shadow=True, indexed=True, names=None):
     if indexed and not names:
         opts.append(st.builds(lambda b, i: ["idx", b, i], st.sampled_from(INDEX_BASES),
                               st.integers(0, 12)))
+        # two vectors whose names end alike, read at the same index, in one expression
+        opts.append(st.builds(lambda pair, i, k: ["+", ["idx", pair[0], i], ["*", ["int", k], ["idx", pair[1], i]]],
+                              st.sampled_from([("eth", "th"), ("th", "h"), ("h", "th"), ("up", "p"), ("p", "up")]), st.integers(0, 12), st.sampled_from([2, 3, -1])))
     return st.one_of(*opts)
 
 
